@@ -5,7 +5,13 @@ Layers (DESIGN §7 C09, design_notes/C09.md):
   2. ORACLE on the real `State` after every `run_to_completion` (this decides the property on the code):
      queue empty; from-scratch scan == event_matching_heads (multisets) and the reverse map is its inverse; every
      active head of every listening instance parked on match / wait-for-heads; done instances hold no head; no
-     instance left STOPPING; every referenced flow / action uid exists.
+     instance left STOPPING; every referenced flow / action uid exists; every index entry is the (flow uid, head uid) tuple
+     the interpreter itself adds and removes.  DURING the event (worklist tie): at every boundary of the loops of
+     `run_to_completion` (recorded by harness/impl/corevm.py: each call / return of `_advance_head_front` from
+     run_to_completion, each call of `_resolve_action_conflicts`) the invariant `PendingCovers` — every non-INACTIVE head of a
+     listening instance that is neither on a match nor on a wait-for-heads element is in the pending list — and, where the
+     actionable heads are resolved, an empty internal queue (`check_loops`).  The recorded worklists stay in the observation
+     (`steps[i]["loops"]`) for a comparison with the model's pending lists.
   3. record / replay tie: the primitive index operations the real interpreter performed (recorded by
      harness/impl/corevm.py) are replayed in the Lean model; the model's index must equal the real one after every
      external event and every guard of the model must hold on the recorded stream.
@@ -27,7 +33,10 @@ RULE = ("program: 1-5 generated Colang 2.x flows (match/send/start/await, and/or
         "activate, references, return/abort, shared-context children) or the shipped core.co/guardrails.co with stub rails; "
         "history: random external events (plain events of the program's alphabet, Started/Finished events of actions the "
         "program started, state save/restore, clock jumps) of length <=12 quick / <=40 thorough, exhaustive over <=3 events "
-        "x length <=5 for small programs; several tie-break seeds. non-trivial = at least one event moved a head that was "
+        "x length <=5 for small programs; several tie-break seeds; extra shapes: main flow not kept alive (restarted, stays WAITING), "
+        "histories dense in clock jumps / save-restore round trips, observer flows (flow-object events of flows started by somebody "
+        "else inside `when` conditions and groups), control events addressed through a flow reference (`send $ref.Stop()`, "
+        "StopFlow / FinishFlow by flow_instance_uid), `deactivate`. non-trivial = at least one event moved a head that was "
         "parked (index changed) AND the program has >=2 flow instances or a fork; distinct = distinct (program, history, seed).")
 TRUSTED_BASE = [
     "recorder harness/impl/corevm.py (monkey-patched setters / dict wrapper; appends only) and the pattern grouping `group_ops`",
